@@ -402,6 +402,46 @@ def r4_normalisation(cx):
                    construct=short(a, 120))
 
 
+def _main_loops(fn, ps):
+    """Index of the segment loop among the top-level statements: the loop over both heads that contains the returns."""
+    c = [i for i, st in enumerate(fn.body) if isinstance(st, ast.While) and all(("%s[0]" % p) in U(st.test) for p in ps)]
+    if len(c) > 1:
+        c = [i for i in c if any(isinstance(n, ast.Return) for n in ast.walk(fn.body[i]))]
+    return c
+
+
+def r4b_whole_operands(cx):
+    """Everything between the entry of _rpm_vercmp and its main loop may only normalise the operands; a slice, a pop or a drop there removes
+    characters from the comparison (a 'skip the common prefix' shortcut cuts inside a segment: '2.02b3' vs '2.02beta2')."""
+    cx.rule("C13.R4", "input normalisation keeps one element per character: a non-ASCII character becomes a separator, it is not dropped", floor=2)
+    m = cx.repo.module(RV)
+    fn = m.func("_rpm_vercmp", "C13.R4")
+    ps = params(fn)[:2]
+    idx = _main_loops(fn, ps)
+    if len(idx) != 1:
+        return          # C13.R5 reports the missing loop
+    pre = fn.body[:idx[0]]
+    derived = set(ps)
+    for _ in range(3):
+        for st in walk_body(pre):
+            if isinstance(st, ast.Assign) and any(isinstance(n, ast.Name) and n.id in derived for n in ast.walk(st.value)):
+                for t in st.targets:
+                    for n in ast.walk(t):
+                        if isinstance(n, ast.Name):
+                            derived.add(n.id)
+    cuts = []
+    for n in walk_body(pre):
+        if isinstance(n, ast.Subscript) and isinstance(n.slice, ast.Slice) and isinstance(n.value, ast.Name) and n.value.id in derived:
+            cuts.append(n)
+        if isinstance(n, ast.Call) and isinstance(n.func, ast.Attribute) and n.func.attr in ("popleft", "pop", "lstrip", "rstrip", "strip", "remove", "clear") \
+                and isinstance(n.func.value, ast.Name) and n.func.value.id in derived:
+            cuts.append(n)
+        if isinstance(n, ast.Call) and call_name(n) in ("islice", "itertools.islice", "dropwhile", "itertools.dropwhile", "os.path.commonprefix", "commonprefix"):
+            cuts.append(n)
+    cx.require(not cuts, cuts[0] if cuts else fn, "every character of both operands reaches the segment loop (nothing is cut off before it)",
+               construct=short(cuts[0], 90) if cuts else "(no slice / pop before the loop)")
+
+
 def run(cx):
     cx.extra["explanation"] = ("C13: abstract interpretation over the sign domain {-,0,+}: the six rich comparison methods of InstalledRpm against the sign of rpm_version_compare (18 obligations), "
                                "rpm_version_compare against the signs of the epoch/version/release comparisons (27 obligations, exhaustive), max/min wiring of newest/oldest.")
@@ -413,3 +453,335 @@ def run(cx):
     cx.guard(r2_field_order)
     cx.guard(r3_lookups)
     cx.guard(r4_normalisation)
+    cx.guard(r4b_whole_operands)
+    cx.guard(r5_head_table)
+
+
+# ---------------------------------------------------------------------------------------------------------------------------------------
+# C13.R5: the marker / end-of-string / segment-type decisions of _rpm_vercmp, decided for every pair of head-character classes
+# ---------------------------------------------------------------------------------------------------------------------------------------
+HEADS = {"end": "", "tilde": "~", "caret": "^", "alpha": "a", "digit": "1"}
+
+
+class _Seg(object):
+    """Abstract leading segment: only its emptiness is known (it is non-empty iff the head character is of the segment's type)."""
+    def __init__(self, nonempty):
+        self.nonempty = nonempty
+
+
+class _Stop(Exception):
+    def __init__(self, outcome):
+        self.outcome = outcome
+
+
+class _Opaque(object):
+    """A value the head classes do not determine (lengths, segment contents, ...); only deciding on it is an error."""
+    def __init__(self, why):
+        self.why = why
+
+
+class HeadInterp(object):
+    """Evaluates one pass through the main loop of _rpm_vercmp when all that is known of the two operands is the class of their first character
+    after separator skipping: end of string, '~', '^', a letter, a digit.  Conditions may only use operations that are invariant within a class."""
+
+    def __init__(self, fn, ha, hb, mod=None):
+        ps = params(fn)
+        self.fn, self.mod = fn, mod
+        self.A, self.B = ps[0], ps[1]
+        self.head = {self.A: HEADS[ha], self.B: HEADS[hb]}
+        self.popped = {self.A: 0, self.B: 0}
+        self.env = {}
+        self.alias = {}
+        self.preds = {}
+
+    def opnd(self, e):
+        if isinstance(e, ast.Name):
+            n = self.alias.get(e.id, e.id)
+            if n in self.head:
+                return n
+        return None
+
+    def head_of(self, e):
+        """x[0] for an operand x whose head is still the known one."""
+        if isinstance(e, ast.Subscript) and isinstance(e.slice, ast.Constant) and e.slice.value == 0:
+            n = self.opnd(e.value)
+            if n is not None:
+                if self.popped[n]:
+                    raise Unknown("head of '%s' read after it was consumed" % n)
+                return n
+        return None
+
+    def ev(self, e):
+        try:
+            return self._ev(e)
+        except Unknown as u:
+            return _Opaque(str(u))
+
+    def _ev(self, e):
+        if isinstance(e, ast.Constant):
+            return e.value
+        n = self.head_of(e)
+        if n is not None:
+            return self.head[n]
+        if isinstance(e, ast.Name):
+            if e.id in self.env:
+                return self.env[e.id]
+            c = feat.resolve_const(self.mod, self.fn, e) if self.mod is not None else None
+            if isinstance(c, ast.Constant):
+                return c.value
+            if c is not None and c is not e and not isinstance(c, ast.Name):
+                return self._ev(c)          # a module-level constant expression ('_TILDE + _CARET')
+            raise Unknown("name %s" % e.id)
+        if isinstance(e, ast.BinOp) and isinstance(e.op, ast.Add):
+            a, b = self.ev(e.left), self.ev(e.right)
+            if isinstance(a, str) and isinstance(b, str):
+                return a + b
+            raise Unknown("expression %s" % short(e))
+        if isinstance(e, ast.Attribute):
+            c = feat.resolve_const(self.mod, self.fn, e) if self.mod is not None else None
+            if isinstance(c, ast.Constant):
+                return c.value
+        if isinstance(e, (ast.Tuple, ast.List)):
+            return [self.ev(x) for x in e.elts]
+        if isinstance(e, ast.UnaryOp) and isinstance(e.op, ast.Not):
+            return not self.truth(self.ev(e.operand))
+        if isinstance(e, ast.UnaryOp) and isinstance(e.op, ast.USub):
+            v = self.ev(e.operand)
+            if not isinstance(v, int):
+                raise Unknown("negation of %s" % short(e.operand))
+            return -v
+        if isinstance(e, ast.BoolOp):
+            v = None
+            for x in e.values:
+                v = self.ev(x)
+                if self.truth(v) == isinstance(e.op, ast.Or):
+                    return v
+            return v
+        if isinstance(e, ast.IfExp):
+            return self.ev(e.body if self.truth(self.ev(e.test)) else e.orelse)
+        if isinstance(e, ast.Compare) and len(e.ops) == 1:
+            a, b = self.ev(e.left), self.ev(e.comparators[0])
+            if isinstance(a, (_Seg, _Opaque)) or isinstance(b, (_Seg, _Opaque)):
+                raise Unknown("comparison of %s" % short(e))
+            op = e.ops[0]
+            if isinstance(op, (ast.In, ast.NotIn)):
+                if isinstance(b, list) and any(isinstance(x, (_Seg, _Opaque)) for x in b):
+                    raise Unknown("membership in %s" % short(e.comparators[0]))
+                return (a in b) == isinstance(op, ast.In)
+            if isinstance(op, (ast.Is, ast.IsNot)):
+                raise Unknown("identity test")
+            return _cmp(op, a, b)
+        if isinstance(e, ast.Call):
+            if isinstance(e.func, ast.Attribute) and e.func.attr in ("isalnum", "isdigit", "isalpha") and not e.args:
+                v = self.ev(e.func.value)
+                if isinstance(v, str):
+                    return getattr(v, e.func.attr)()
+            if call_name(e) in ("bool",) and len(e.args) == 1:
+                return self.truth(self.ev(e.args[0]))
+            seg = self.segment(e)
+            if seg is not None:
+                return seg
+            raise Unknown("call %s" % short(e))
+        raise Unknown("expression %s" % short(e))
+
+    def segment(self, e):
+        """deque(takewhile(lambda v: v.is<kind>(), x)) / list(...) / takewhile(...) -> abstract segment."""
+        inner = e
+        while isinstance(inner, ast.Call) and len(inner.args) == 1 and (call_name(inner) in ("deque", "list", "tuple", "collections.deque")
+                                                                       or (isinstance(inner.func, ast.Attribute) and inner.func.attr == "join" and isinstance(inner.func.value, ast.Constant))):
+            inner = inner.args[0]
+        if isinstance(inner, ast.Call) and call_name(inner) in ("takewhile", "itertools.takewhile") and len(inner.args) == 2:
+            pred, src = inner.args
+            n = self.opnd(src)
+            if n is None or self.popped[n]:
+                return None
+            kind = self.pred_kind(pred)
+            if kind is None:
+                return None
+            h = self.head[n]
+            return _Seg(bool(h) and getattr(h, kind)())
+        return None
+
+    def pred_kind(self, pred, depth=0):
+        """'isdigit' / 'isalpha' for a character predicate written as a lambda, str.isdigit, methodcaller('isdigit'), a one-line helper, or a
+        conditional expression choosing between two of them on a value the heads determine."""
+        if depth > 3:
+            return None
+        if isinstance(pred, ast.IfExp):
+            try:
+                t = self.truth(self.ev(pred.test))
+            except Unknown:
+                return None
+            return self.pred_kind(pred.body if t else pred.orelse, depth + 1)
+        if isinstance(pred, ast.Lambda) and isinstance(pred.body, ast.Call) and isinstance(pred.body.func, ast.Attribute) and pred.body.func.attr in ("isdigit", "isalpha") \
+                and not pred.body.args and U(pred.body.func.value) == (pred.args.args[0].arg if pred.args.args else None):
+            return pred.body.func.attr
+        if isinstance(pred, ast.Attribute) and U(pred.value) == "str" and pred.attr in ("isdigit", "isalpha"):
+            return pred.attr
+        if isinstance(pred, ast.Call) and call_name(pred) in ("methodcaller", "operator.methodcaller") and len(pred.args) == 1:
+            a0 = pred.args[0]
+            if isinstance(a0, ast.IfExp):
+                try:
+                    a0 = a0.body if self.truth(self.ev(a0.test)) else a0.orelse
+                except Unknown:
+                    return None
+            if isinstance(a0, ast.Constant) and a0.value in ("isdigit", "isalpha"):
+                return a0.value
+        if isinstance(pred, ast.Name):
+            if pred.id in self.preds:
+                return self.preds[pred.id]
+            if self.mod is not None:
+                d = self.mod.top.get(pred.id) if hasattr(self.mod, "top") else None
+                if d is None:
+                    fs = [x for x in self.mod.tree.body if isinstance(x, FUNC_TYPES) and x.name == pred.id]
+                    d = fs[0] if len(fs) == 1 else None
+                if isinstance(d, FUNC_TYPES) and len(d.body) == 1 and isinstance(d.body[0], ast.Return) and d.args.args:
+                    b = d.body[0].value
+                    if isinstance(b, ast.Call) and isinstance(b.func, ast.Attribute) and b.func.attr in ("isdigit", "isalpha") and U(b.func.value) == d.args.args[0].arg:
+                        return b.func.attr
+                if isinstance(d, (ast.Lambda, ast.Attribute, ast.Call)):
+                    return self.pred_kind(d, depth + 1)
+        return None
+
+    def truth(self, v):
+        if isinstance(v, _Seg):
+            return v.nonempty
+        if isinstance(v, _Opaque):
+            raise Unknown("decision on %s" % v.why)
+        return bool(v)
+
+    def block(self, stmts):
+        for st in stmts:
+            self.stmt(st)
+
+    def stmt(self, st):
+        if isinstance(st, ast.Expr) and isinstance(st.value, ast.Constant):
+            return
+        if isinstance(st, ast.Pass):
+            return
+        if isinstance(st, ast.If):
+            self.block(st.body if self.truth(self.ev(st.test)) else st.orelse)
+            return
+        if isinstance(st, ast.Return):
+            v = self.ev(st.value) if st.value is not None else None
+            if isinstance(v, (_Opaque, _Seg)):
+                raise Unknown("returns %s" % short(st.value))
+            raise _Stop(("return", v))
+        if isinstance(st, ast.Assert):
+            return
+        if isinstance(st, ast.Assign) and len(st.targets) == 1 and isinstance(st.targets[0], ast.Tuple) and isinstance(st.value, ast.Tuple) \
+                and len(st.targets[0].elts) == len(st.value.elts) and all(isinstance(t, ast.Name) and t.id not in self.head for t in st.targets[0].elts):
+            vals = [self.ev(x) for x in st.value.elts]
+            for t, v in zip(st.targets[0].elts, vals):
+                self.env[t.id] = v
+            return
+        if isinstance(st, ast.Continue):
+            raise _Stop(("continue", self.popped[self.A], self.popped[self.B]))
+        if isinstance(st, ast.Break):
+            raise _Stop(("break",))
+        if isinstance(st, ast.Expr) and isinstance(st.value, ast.Call) and isinstance(st.value.func, ast.Attribute) and st.value.func.attr == "popleft" and not st.value.args:
+            n = self.opnd(st.value.func.value)
+            if n is None:
+                raise Unknown("popleft on %s" % U(st.value.func.value))
+            self.popped[n] += 1
+            return
+        if isinstance(st, ast.For) and isinstance(st.target, ast.Name) and isinstance(st.iter, (ast.List, ast.Tuple)) and not st.orelse:
+            for el in st.iter.elts:
+                n = self.opnd(el)
+                if n is None:
+                    raise Unknown("loop over %s" % short(st.iter))
+                self.alias[st.target.id] = n
+                self.block(st.body)
+            self.alias.pop(st.target.id, None)
+            return
+        if isinstance(st, ast.While) and not st.orelse:
+            if self.truth(self.ev(st.test)):
+                raise Unknown("inner loop runs for a head that is no separator: %s" % short(st.test))
+            return
+        if isinstance(st, ast.Assign) and len(st.targets) == 1 and isinstance(st.targets[0], ast.Name) and st.targets[0].id not in self.head:
+            k = self.pred_kind(st.value)
+            if k is not None:
+                self.preds[st.targets[0].id] = k
+            self.env[st.targets[0].id] = self.ev(st.value)
+            return
+        if isinstance(st, ast.Expr):
+            self.ev(st.value)          # an expression statement that is no consumption: its value is not used
+            return
+        raise Unknown("statement %s" % short(st))
+
+    def run(self, loop, after):
+        """Outcome of one pass: ('return', v) | ('continue', consumed_a, consumed_b) | ('segment',) (both heads of one type: the value-level part)."""
+        try:
+            try:
+                self.block(loop.body)
+                raise Unknown("loop body falls through without consuming anything")
+            except _Stop as s:
+                if s.outcome[0] != "break":
+                    return s.outcome
+            if self.popped[self.A] or self.popped[self.B]:
+                raise Unknown("break after consuming")
+            try:
+                self.block(after)
+            except _Stop as s:
+                return s.outcome
+            raise Unknown("no return after the loop")
+        except Unknown as u:
+            if self.reached_segments(u):
+                return ("segment",)
+            raise
+
+    def reached_segments(self, u):
+        ha, hb = self.head[self.A], self.head[self.B]
+        same = (ha.isdigit() and hb.isdigit()) or (ha.isalpha() and hb.isalpha())
+        return same and not self.popped[self.A] and not self.popped[self.B]
+
+
+def _expected_head_outcome(ha, hb):
+    if ha == "tilde" or hb == "tilde":
+        if ha == hb:
+            return ("continue", 1, 1)
+        return ("return", -1 if ha == "tilde" else 1)
+    if ha == "caret" or hb == "caret":
+        if ha == "end":
+            return ("return", -1)
+        if hb == "end":
+            return ("return", 1)
+        if ha == hb:
+            return ("continue", 1, 1)
+        return ("return", -1 if ha == "caret" else 1)
+    if ha == "end" or hb == "end":
+        return ("return", 0 if ha == hb else -1 if ha == "end" else 1)
+    if ha == hb:
+        return ("segment",)
+    return ("return", 1 if ha == "digit" else -1)
+
+
+def r5_head_table(cx):
+    """rpmvercmp.c decides on the first characters alone whenever one of them is a marker, a string has ended, or the two segments are of different
+    types: '~' sorts before everything (also before the end of the string and before '^'), '^' sorts after the end of the string and before
+    anything else, an ended string loses against remaining characters, a numeric segment beats an alphabetic one.  The main loop is evaluated
+    for all 25 pairs of head classes; the order of the tests in the source is free as long as the table comes out."""
+    cx.rule("C13.R5", "marker ('~', '^'), end-of-string and segment-type decisions of _rpm_vercmp for every pair of head-character classes", floor=25)
+    m = cx.repo.module(RV)
+    fn = m.func("_rpm_vercmp", "C13.R5")
+    ps = params(fn)
+    loops = _main_loops(fn, ps[:2])
+    if len(loops) != 1:
+        cx.unknown(fn, "cannot find the main loop 'while a[0] or b[0]' of _rpm_vercmp")
+        return
+    loop, after = fn.body[loops[0]], fn.body[loops[0] + 1:]
+    for ha in sorted(HEADS):
+        for hb in sorted(HEADS):
+            if ha == hb == "end":
+                continue            # the loop is not entered
+            want = _expected_head_outcome(ha, hb)
+            try:
+                got = HeadInterp(fn, ha, hb, m).run(loop, after)
+            except Unknown as u:
+                cx.unknown(loop, "head-class evaluation (%s, %s) cannot interpret: %s" % (ha, hb, u))
+                return
+            if got[0] == "return" and isinstance(got[1], int) and not isinstance(got[1], bool):
+                got = ("return", (got[1] > 0) - (got[1] < 0))
+            cx.require(got == want, loop, "heads (%s, %s): %s" % (ha, hb, "compare the two segments" if want[0] == "segment" else
+                                                                  "both markers are consumed and the loop goes on" if want[0] == "continue" else "result %+d" % want[1]),
+                       construct="(%s, %s) -> %s" % (ha, hb, " ".join(str(x) for x in got)))
